@@ -26,7 +26,8 @@ def tokens_of(path, seen=None):
                for t in (n.targets if isinstance(n, ast.Assign) else [n.target]))] or [10 ** 9])
     for n in ast.walk(tree):
         if isinstance(n, ast.Constant) and isinstance(n.value, str) and getattr(n, "lineno", 0) < cut:
-            toks |= set(re.findall(r"[A-Za-z_][A-Za-z0-9_]*", n.value))
+            # identifiers that stand on their own in the string (attribute names after a dot are not locals)
+            toks |= set(re.findall(r"(?<![\w.])[A-Za-z_][A-Za-z0-9_]*", n.value))
         if isinstance(n, ast.ImportFrom) and n.module == "rules":
             for a in n.names:
                 toks |= tokens_of(os.path.join(HERE, "rules", a.name + ".py"), seen)
